@@ -106,11 +106,26 @@ CLAIMS = {
          "DESIGN.md section 4 C04"),
 }
 
+# clauses added with the rules of round 6 (see DESIGN.md section 8, RULES.md for the inventory)
+ADD6 = {
+ "C01": " Also decided: a new connection's matching buffer is proven empty where it is handed to WrapConnection; the tee's next-handler connection, evaluated over the outcomes of its underlying read (data, data with EOF, EOF, error), has written to the branch whatever it returns and closes the pipe exactly at EOF.",
+ "C03": " A full Close of an upstream inside proxy() (nested closures included) is accepted only for an upstream that cannot half-close and only after the client->upstream pump has finished.",
+ "C04": " Also decided: pointers prepared while provisioning and dereferenced per connection without a nil test (compiled regexps, loggers, servers: 15 fields) are assigned a value that cannot be nil on every error-free path of a storing function (helper results included); matchers only ever run frozen (the C01 typestate), so none reads from the socket without bound.",
+ "C08": " The rest of a partially read datagram is never a view of a buffer already returned to the pool (path evaluation of packetConn.Read).",
+ "C12": " Routes after the handler are decided on the connection it handed on (routing invariants of the explored route handler: verdicts taken before a handler replaced the connection are asked again).",
+ "C13": " Every matcher of a set is bracketed by its own freeze/unfreeze (typestate), so the hand-off starts at the first unconsumed byte.",
+ "C14": " Verdict tables (concrete first messages evaluated through Match, with the reference verdict written from the protocol definition) now cover ssh, xmpp, postgres, socks4, socks5, proxy_protocol, regexp, wireguard, winbox, rdp and openvpn (plain/auth/crypt/crypt2 gates, TCP and UDP); the OpenVPN replay window is evaluated for timestamps around both edges (accepted iff less than 15 s from now, either side); one DNS rule is evaluated on 15 filter combinations x 5 questions against the conjunction of its plain and regexp filters.",
+ "C15": " Every call site of a Caddyfile helper taking the dispenser hands it over in the same cursor position; 25 UnmarshalCaddyfile methods are evaluated, with a model of caddyfile.Dispenser, on 230 concrete token sequences (documented forms, wrong counts, duplicates, exclusive and unknown options, nested blocks) and must leave exactly the fields the documented syntax denotes or reject the input.",
+ "C16": " Provision is evaluated on concrete credential tables with placeholders in names and passwords: the authenticator's map holds resolved name -> resolved password of the same entry and no account for a name that resolves to nothing.",
+ "C18": " No size guard compares a length narrowed to 8 or 16 bits unless the length is proven to fit (an input of size + k*2^16 bytes would pass and be parsed from its first bytes).",
+}
+
 checks = []
 for p in props:
     if p["id"] not in CLAIMS:
         continue
     tech, text, ref = CLAIMS[p["id"]]
+    text = text + ADD6.get(p["id"], "")
     checks.append({
         "property_id": p["id"],
         "quick_cmd": "./run.sh %s quick" % p["id"],
